@@ -173,6 +173,10 @@ class BeltStore(Store):
 
         """
         # Check if there's enough space to reserve
+        if self.reservations_put:
+            # an admission is already granted and not used yet: the spacing of the next item can only
+            # be judged against that item once it is on the belt
+            return
         if self.items:
             if len(self.reservations_put) + len(self.items) +len(self.ready_items) < self.capacity:
               
